@@ -41,15 +41,25 @@ def sliding_window_waiters(count, nacq, c0, c1, c2, c3, c4, c5):
     notify wakes): nobody stays blocked forever, tokens are 0..nacq-1 each once, capacity is back at the end."""
     s = _sem(count)
     got = []
+    holding = [0]
 
     def worker():
         tok = yield from s._co_acquire('t')
         got.append(tok)
+        holding[0] += 1
         yield ('pt', 'holding')
+        holding[0] -= 1
         yield from s._co_release('t', tok)
 
+    def invariant():
+        if s._count < 0:
+            return 'sem: free capacity went negative'
+        if holding[0] > count:
+            return 'sem: more tokens held at once than the capacity'
+        return None
+
     sch = co.Scheduler([c0, c1, c2, c3, c4, c5], max_steps=300)
-    v = sch.run([worker() for _ in range(nacq)])
+    v = sch.run([worker() for _ in range(nacq)], invariant)
     if v:
         return 'sem: ' + v
     if sorted(got) != list(range(nacq)):
@@ -112,7 +122,7 @@ E1 = ValueError('task failed')
 def coordinator_race(op1, op2, started, s0, s1, s2, s3, s4, s5, s6, s7):
     """C17.3 / C08.2: two threads, one coordinator operation each, statement-level interleaving outside lock bodies.
     ops: 0 final task succeeds + announces, 1 a task fails + the final task announces, 2 user cancels,
-    3 user set_exception on a (possibly) finished future.  `started`: whether the transfer left 'not-started'."""
+    3 user set_exception on a (possibly) finished future, 4 the submission thread moves the transfer to queued/running.  `started`: whether the transfer left 'not-started'."""
     c = _coord()
     fut = FU.TransferFuture(None, c)
     if started:
@@ -136,15 +146,32 @@ def coordinator_race(op1, op2, started, s0, s1, s2, s3, s4, s5, s6, s7):
             yield from c._co_announce_done()
         elif op == 2:
             yield from c._co_cancel('m')
-        else:
+        elif op == 3:
             if c.done():
                 yield from c._co_set_exception(E1, True)
+        else:
+            # the submission thread starting the transfer (guarded transitions)
+            try:
+                yield from c._co_set_status_to_queued()
+                yield from c._co_set_status_to_running()
+            except RuntimeError:
+                pass
+    was = {'done': False}
+
+    def monotone():
+        if c.done():
+            was['done'] = True
+        elif was['done']:
+            return 'race: done() reverted from True to False'
+        return None
     sch = co.Scheduler([s0, s1, s2, s3, s4, s5, s6, s7], max_steps=300)
-    v = sch.run([thread(op1), thread(op2)])
+    v = sch.run([thread(op1), thread(op2)], monotone)
     if v:
-        return 'race: ' + v
+        return v if v.startswith('race:') else 'race: ' + v
     st = c.status
-    announced = (op1 in (0, 1)) or (op2 in (0, 1)) or (not started and 2 in (op1, op2))
+    announced = (op1 in (0, 1)) or (op2 in (0, 1)) or (not started and 2 in (op1, op2) and 4 not in (op1, op2))
+    if 2 in (op1, op2) and st not in ('success', 'failed', 'cancelled'):
+        return 'race: cancelled transfer ended in a non-final status (a finished transfer was restarted)'
     if st not in ('success', 'failed', 'cancelled'):
         if announced:
             return 'race: announced although the status is not final'
@@ -172,7 +199,7 @@ def coordinator_race(op1, op2, started, s0, s1, s2, s3, s4, s5, s6, s7):
     return None
 
 
-def cancel_vs_submission(s0, s1, s2, s3, s4, s5, s6, s7):
+def cancel_vs_submission(w1, w2, w3):
     """C08.2: user cancel() racing the submission task (Task.__call__ -> SubmissionTask._main with a trivial
     _submit): under every interleaving done callbacks and cleanups run exactly once and only after the event is set"""
     c = _coord()
@@ -203,10 +230,25 @@ def cancel_vs_submission(s0, s1, s2, s3, s4, s5, s6, s7):
 
     def user():
         yield from c._co_cancel('m')
-    sch = co.Scheduler([s0, s1, s2, s3, s4, s5, s6, s7], max_steps=400)
-    v = sch.run([submission(), user()])
+    was = {'done': False}
+
+    def monotone():
+        if c.done():
+            was['done'] = True
+        elif was['done']:
+            return 'race: done() reverted from True to False'
+        return None
+    pre = []
+    if w1 >= 0:
+        pre.append((w1, 1))
+        if w2 >= 0:
+            pre.append((w1 + 1 + w2, 0))
+            if w3 >= 0:
+                pre.append((w1 + 2 + w2 + w3, 1))
+    sch = co.Scheduler(preempt=pre, max_steps=400)
+    v = sch.run([submission(), user()], monotone)
     if v:
-        return 'race: ' + v
+        return v if v.startswith('race:') else 'race: ' + v
     if not c.done() or not c._done_event.is_set():
         return 'race: transfer not done / not announced after cancel and submission both finished'
     if ran['done'] != 1:
@@ -216,7 +258,7 @@ def cancel_vs_submission(s0, s1, s2, s3, s4, s5, s6, s7):
     return None
 
 
-def task_dependencies(fail1, fail2, cancel, s0, s1, s2, s3, s4, s5, s6, s7):
+def task_dependencies(fail1, fail2, cancel, pr0, pr1, pr2, pr3, st1, th1):
     """CO.deps (C03/C05/C07/C08): two part tasks and the final task of one transfer run on their own threads; the
     final task depends on both part futures.  A part may fail (fail1/fail2), the user may cancel; every
     statement-level interleaving of Task.__call__ (co-version from the source).  Oracle: the final step runs only with
@@ -263,7 +305,7 @@ def task_dependencies(fail1, fail2, cancel, s0, s1, s2, s3, s4, s5, s6, s7):
             yield from c._co_cancel('m')
         return
         yield
-    sch = co.Scheduler([s0, s1, s2, s3, s4, s5, s6, s7], max_steps=400)
+    sch = co.Scheduler(prio=[pr0, pr1, pr2, pr3], preempt=[(st1, th1)] if st1 >= 0 else [], max_steps=400)
     v = sch.run([run_part(0), run_part(1), run_final(), user()])
     if v:
         return 'deps: ' + v
@@ -305,25 +347,35 @@ OB_CCI = dict(id='CO.invoker', impl='count_callback', params='c0: int, c1: int, 
               bounds='1..3 part tasks + the submitter, 5 symbolic scheduling choices',
               encodes=['CountCallbackInvoker.increment/decrement/finalize'], assumptions=['co-versions from the source'])
 OB_RACE = dict(id='CO.race', impl='coordinator_race', params=_S8,
-               cases=[(a, b, st) for a in range(4) for b in range(a, 4) for st in (True, False) if not (a == 3 and b == 3)],
+               cases=[(a, b, st) for a in range(5) for b in range(a, 5) for st in (True, False)
+                      if not (a == 3 and b == 3) and not (a == 4 and b == 4) and not (st and 4 in (a, b))],
                pre=_S8P, timeout=(170, 900),
                bounds='2 threads, one operation each out of {final success, task failure + announce, cancel, user '
                       'set_exception}, transfer started or not; 8 binary scheduling choices at statement level',
                encodes=['TransferCoordinator.set_result/set_exception/cancel/announce_done/_run_done_callbacks/'
                         '_run_failure_cleanups'], assumptions=['co-versions from the source'])
-OB_DEPS = dict(id='CO.deps', impl='task_dependencies', params=_S8,
+OB_DEPS = dict(id='CO.deps', impl='task_dependencies',
+               params='pr0: int, pr1: int, pr2: int, pr3: int, st1: int, th1: int',
                cases=[(f1, f2, cn) for f1 in (False, True) for f2 in (False, True) for cn in (False, True)],
-               pre=['0 <= s%d <= 3' % i for i in range(8)],
-               splits=[['s0 == %d' % i, 's4 == 0', 's5 == 0', 's6 == 0', 's7 == 0'] for i in range(4)],
-               splits_thorough=[['s0 == %d' % i, 's1 == %d' % j, 's6 == 0', 's7 == 0'] for i in range(4) for j in range(4)],
+               pre=['0 <= pr0 <= 3 and 0 <= pr1 <= 3 and 0 <= pr2 <= 3 and 0 <= pr3 <= 3', '-1 <= st1 <= 40',
+                    '0 <= th1 <= 3'],
+               splits=[['st1 == -1', 'th1 == 0']],
+               splits_thorough=[['st1 == -1', 'th1 == 0']] + [['%d <= st1 <= %d' % (a, a + 4)] for a in range(0, 40, 5)],
                timeout=(170, 1200),
-               bounds='2 part tasks + final task + user thread; parts fail or not, user cancels or not; 4 (thorough 6) '
-                      'symbolic scheduling choices in 0..3 at statement level (then the running thread continues)',
+               bounds='2 part tasks + final task + user thread; parts fail or not, user cancels or not; priority '
+                      'schedules: symbolic priorities 0..3 per thread (every order in which whole threads precede each '
+                      'other, blocking included), thorough: plus one preemption at a symbolic step to a symbolic thread',
                encodes=['Task.__call__', '_wait_on_dependent_futures', '_wait_until_all_complete',
                         '_get_all_main_kwargs', '_execute_main', 'TransferCoordinator.set_exception/cancel/'
                         'set_result/announce_done'], assumptions=['co-versions from the source'])
-OB_CVS = dict(id='CO.cancel-vs-submission', impl='cancel_vs_submission', params=_S8, pre=_S8P,
-              splits=[['s0 == 0'], ['s0 == 1']], timeout=(170, 900),
-              bounds='cancel() racing Task.__call__ / SubmissionTask._main, 8 binary scheduling choices',
-              encodes=['Task.__call__', 'SubmissionTask._main', 'TransferCoordinator.cancel / announce_done'],
+OB_CVS = dict(id='CO.cancel-vs-submission', impl='cancel_vs_submission', params='w1: int, w2: int, w3: int',
+              pre=['-1 <= w1 <= 40', '-1 <= w2 <= 30', '-1 <= w3 <= 20'],
+              splits=[['w3 == -1', 'w1 <= 10'], ['w3 == -1', '10 < w1 <= 20'], ['w3 == -1', '20 < w1']],
+              splits_thorough=[[a, b] for a in ('w1 <= 10', '10 < w1 <= 20', '20 < w1') for b in ('w3 <= 5', '5 < w3')],
+              timeout=(170, 1200),
+              bounds='cancel() racing Task.__call__ / SubmissionTask._main at statement level: the submission thread runs '
+                     'w1 steps, the user w2 steps, the submission thread w3 steps, then the user finishes (2, thorough 3, '
+                     'context switches at symbolic positions)',
+              encodes=['Task.__call__', 'SubmissionTask._main', 'TransferCoordinator.cancel / announce_done / '
+                       '_run_done_callbacks / _transition_to_non_done_state'],
               assumptions=['co-versions from the source'])
